@@ -250,6 +250,8 @@ Definition pair_classes (ops : list op) (outs : list out) (d1 d2 : Z * Z * Z) : 
       let '(nb0, eb0) := dump_bounds k1 in
       let has_inplace := existsb inplace_op seg in
       let has_creation := existsb creation_side_op seg in
+      let earlier_abort := existsb (fun o => match o with Rollback _ | DropSession _ => true | _ => false end)
+                                   (firstn (Z.to_nat (s1 + l1)) ops) in
       let cls (i : Z) : Z :=
           let k := nth (Z.to_nat i) k2 AllScan in
           match how with
@@ -258,9 +260,9 @@ Definition pair_classes (ops : list op) (outs : list out) (d1 d2 : Z * Z * Z) : 
               if raw_kind k then (if has_creation then 2 else if has_inplace then 1 else 0)
               else (if has_inplace then 1 else 0)
           | EndCommit =>
-              if raw_kind k && (i <? base) && negb (out_eqb (sp_read d d nb0 eb0 k) (nth (Z.to_nat i) x1 OErr)) then 2
-              else if 0 <? commits_before ops outs (s1 + l1) + Z.of_nat (length (filter (fun o => match o with Commit _ => true | _ => false end) seg)) - 1
-                   then 5 else 0
+              (* left-overs of an earlier rolled-back / dropped creation surface in the raw paths *)
+              if raw_kind k && earlier_abort then 2
+              else if 0 <? commits_before ops outs (s1 + l1) then 5 else 0
           end in
       fold_left (fun acc i => let c := cls i in if memz c acc then acc else acc ++ [c]) bad []
   end.
